@@ -119,10 +119,11 @@ fn base_cfg(property: &str, tier: &str) -> JobCfg {
         io: IoCfg { eof_forks: if thorough { 6 } else { 3 }, out_fault_forks: 0, in_fault_forks: 0, out_fault_ok0: false },
         ref_steps: if thorough { 200_000 } else { 20_000 },
         solver: Kind::Z3,
-        timeout_ms: if thorough { 120_000 } else { 10_000 },
+        timeout_ms: if thorough { 60_000 } else { 4_000 },
         detect_divergence: false,
         want: Want::Halted,
         profile: profile_name().to_string(),
+        job_time_cap_s: if thorough { 120 } else { 3 },
     }
 }
 
@@ -154,6 +155,11 @@ fn corpus_programs(tier: &str, with_comments: bool) -> (Vec<(String, String)>, V
     let gen_count = gens.len();
     for p in gens {
         progs.push(("GEN".into(), p));
+    }
+    let structs = corpus::gen_struct(sd, if thorough { 3000 } else { 500 });
+    let struct_count = structs.len();
+    for p in structs {
+        progs.push(("STRUCT".into(), p));
     }
     let repo = corpus::repo_programs(&repo_root());
     let repo_count = repo.len();
@@ -187,6 +193,7 @@ fn corpus_programs(tier: &str, with_comments: bool) -> (Vec<(String, String)>, V
         "EXH": format!("all {} bracket-balanced strings over +-<>[]., of length <= {}{}", exh_count, n, if thorough { "" } else { " without adjacent cancelling pairs" }),
         "EXH+1": format!("{} draws (seed {}) from the length-{} strings that contain both ',' and '['", sampled, sd, n + 1),
         "GEN": format!("{} generated idiom programs (seed {})", gen_count, sd),
+        "STRUCT": format!("{} structured programs (assignments, preserving/destructive multiply-adds, counted loops, ifs over 4 variables; seed {})", struct_count, sd),
         "REPO": format!("{} programs extracted from src/exec/testdef.rs and examples/", repo_count),
         "COMMENT": format!("{} programs with an interleaved comment / multi-byte character", comment_count),
         "distinct_programs": progs.len(),
@@ -197,8 +204,44 @@ fn corpus_programs(tier: &str, with_comments: bool) -> (Vec<(String, String)>, V
 fn jobs_for(progs: &[(String, String)], ws: &[u32]) -> Vec<Job> {
     let mut jobs = Vec::new();
     // solver-relevant programs first so the time box cuts the cheap tail, not the interesting head
-    let mut order: Vec<&(String, String)> = progs.iter().collect();
-    order.sort_by_key(|(t, p)| (if t.starts_with("REPO") { 0 } else if corpus::needs_solver(p) { 1 } else { 2 }, 0));
+    // interleave the corpus families round-robin so that a time box cuts every family
+    // proportionally instead of starving the later ones
+    let mut fams: std::collections::BTreeMap<String, Vec<&(String, String)>> = std::collections::BTreeMap::new();
+    for e in progs.iter() {
+        let fam = if e.0.starts_with("REPO") { "REPO".to_string() } else if e.0.starts_with("EXH") { if corpus::needs_solver(&e.1) { "EXH-s".to_string() } else { "EXH-c".to_string() } } else { e.0.clone() };
+        fams.entry(fam).or_default().push(e);
+    }
+    let mut order: Vec<&(String, String)> = Vec::new();
+    let total: usize = progs.len();
+    let mut idx: std::collections::BTreeMap<String, f64> = fams.keys().map(|k| (k.clone(), 0.0)).collect();
+    let mut taken: std::collections::BTreeMap<String, usize> = fams.keys().map(|k| (k.clone(), 0)).collect();
+    // weighted interleaving: each family advances proportionally to its size
+    while order.len() < total {
+        for (k, v) in fams.iter() {
+            let share = v.len() as f64 / total as f64;
+            let acc = idx.get_mut(k).unwrap();
+            *acc += share * fams.len() as f64;
+            let t = taken.get_mut(k).unwrap();
+            while *acc >= 1.0 && *t < v.len() {
+                order.push(v[*t]);
+                *t += 1;
+                *acc -= 1.0;
+            }
+            if share * (fams.len() as f64) < 1.0 && *t < v.len() && *acc >= 0.5 {
+                // small families are not starved
+            }
+        }
+        // flush stragglers when all accumulators are below 1
+        if fams.iter().all(|(k, v)| taken[k] >= v.len() || idx[k] < 1.0) {
+            for (k, v) in fams.iter() {
+                let t = taken.get_mut(k).unwrap();
+                if *t < v.len() {
+                    order.push(v[*t]);
+                    *t += 1;
+                }
+            }
+        }
+    }
     for (t, p) in order {
         for &w in ws {
             jobs.push(Job { tag: t.clone(), code: p.clone(), width: w });
@@ -311,7 +354,7 @@ pub fn run_check(property: &str, tier: &str, part: Option<&str>) -> i32 {
         candidates.extend(o.candidates.iter().cloned());
     }
     let n_candidates = candidates.len();
-    let sum = settle(property, candidates, 400);
+    let sum = settle(property, candidates, 60);
     let mut samples: Vec<Value> = Vec::new();
     for o in res.outs.iter().filter(|o| o.paths >= 2).take(6) {
         samples.push(json!({"program": report::short(&o.code), "width": o.width, "paths": o.paths, "solver_queries": o.stats.queries, "events_on_one_path": o.sample}));
@@ -341,6 +384,7 @@ pub fn run_check(property: &str, tier: &str, part: Option<&str>) -> i32 {
         "eof_positions_explored": format!("end of input at each of the first {} input requests, or later", plan.cfg.io.eof_forks),
         "solver_timeout_ms": plan.cfg.timeout_ms,
         "time_box_s": plan.time_box.as_secs(),
+        "time_cap_per_program_and_width_s": plan.cfg.job_time_cap_s,
         "outside": "inputs driving the canonical run through more open decisions than the cap; programs whose canonical run exceeds the step cap at the given width; programs not in the corpus",
     });
     cov["candidates"] = json!(n_candidates);
@@ -399,4 +443,154 @@ pub fn run_check(property: &str, tier: &str, part: Option<&str>) -> i32 {
     } else {
         0
     }
+}
+
+pub fn run_one(property: &str, code: &str, width: u32, tier: &str) -> i32 {
+    let plan = match plan(property, tier) {
+        Some(p) => p,
+        None => return 2,
+    };
+    let job = Job { tag: "one".into(), code: code.to_string(), width };
+    let specs = (plan.specs)(&job);
+    let out = crate::checks::run_job(&job, &specs, &plan.cfg);
+    println!("{:#?}", JobOut { candidates: vec![], ..out.clone() });
+    for c in &out.candidates {
+        println!("candidate: {} L{} {:?} input={:?} note={}", c.backend.name(), c.level, c.mode, c.input, c.note);
+    }
+    let sum = settle(property, out.candidates.clone(), 20);
+    if sum.violations.is_empty() { 0 } else { 1 }
+}
+
+/// Development aid: run generated programs natively on a few inputs against refbf and print
+/// the failing ones (used to design the corpus; never used as a check).
+pub fn hunt(n: usize) {
+    let sd = seed();
+    let mut progs = corpus::gen_struct(sd, n);
+    progs.extend(corpus::gen(sd, n / 4));
+    let mut rng = corpus::Rng::new(sd ^ 77);
+    let mut found = 0;
+    'prog: for p in progs {
+        for trial in 0..6 {
+            let input: Vec<u8> = (0..8).map(|_| if trial == 0 { 0 } else if trial < 3 { (rng.below(4)) as u8 } else { rng.next() as u8 }).collect();
+            for &w in &[8u32, 64] {
+                for backend in [Backend::Ir, Backend::Bc, Backend::Jit] {
+                    for level in [1u32, 2, 3] {
+                        let case = Case { property: "hunt".into(), backend, width: w, level, mode: Mode::Full, program: p.clone(), input: input.clone(), fail_read_at: None, fail_write_at: None, out_ok0: false, no_input: false, no_output: false, note: String::new(), profile: String::new() };
+                        let r = native::run_ref_native(&case, 300_000);
+                        if r.status != RefStatus::Halted {
+                            continue;
+                        }
+                        // only run subjects on cheap programs (no timeouts in this aid)
+                        if r.steps > 20_000 {
+                            continue;
+                        }
+                        let s = std::panic::catch_unwind(|| native::run_native(&case));
+                        match s {
+                            Ok(s) => {
+                                if s.events != r.events {
+                                    println!("DIFF {} L{} w{} input={:?} program={}", backend.name(), level, w, input, p);
+                                    found += 1;
+                                    continue 'prog;
+                                }
+                            }
+                            Err(_) => {
+                                println!("PANIC {} L{} w{} input={:?} program={}", backend.name(), level, w, input, p);
+                                found += 1;
+                                continue 'prog;
+                            }
+                        }
+                        if found > 40 {
+                            return;
+                        }
+                    }
+                }
+            }
+        }
+    }
+    println!("hunt done, {} findings", found);
+}
+
+fn still_fails(plan: &Plan, code: &str, width: u32) -> bool {
+    if !refbf::balanced(code) {
+        return false;
+    }
+    let job = Job { tag: "min".into(), code: code.to_string(), width };
+    let specs = (plan.specs)(&job);
+    let out = crate::checks::run_job(&job, &specs, &plan.cfg);
+    for (i, c) in out.candidates.iter().enumerate().take(3) {
+        let path = format!("/tmp/symx-min-{}-{}.json", std::process::id(), i);
+        let _ = std::fs::write(&path, c.to_json().to_string());
+        let r = report::replay_case(c, &path, Duration::from_secs(3));
+        let _ = std::fs::remove_file(&path);
+        if let report::Replay::Reproduced(_) = r {
+            return true;
+        }
+    }
+    false
+}
+
+pub fn minimize(property: &str, code: &str, width: u32, tier: &str) {
+    let plan = match plan(property, tier) {
+        Some(p) => p,
+        None => return,
+    };
+    let mut cur = code.to_string();
+    if !still_fails(&plan, &cur, width) {
+        println!("program does not fail");
+        return;
+    }
+    loop {
+        let mut progress = false;
+        // chunk deletions of decreasing size
+        let mut size = (cur.len() / 2).max(1);
+        while size >= 1 {
+            let mut i = 0;
+            while i + size <= cur.len() {
+                let mut cand = cur.clone();
+                cand.replace_range(i..i + size, "");
+                if still_fails(&plan, &cand, width) {
+                    cur = cand;
+                    progress = true;
+                    println!("  -> {}", cur);
+                } else {
+                    i += 1;
+                }
+            }
+            if size == 1 {
+                break;
+            }
+            size /= 2;
+        }
+        // matched bracket pair removal (keep the body)
+        let bytes: Vec<u8> = cur.bytes().collect();
+        let mut st = vec![];
+        let mut pairs = vec![];
+        for (i, &b) in bytes.iter().enumerate() {
+            if b == b'[' {
+                st.push(i)
+            } else if b == b']' {
+                if let Some(j) = st.pop() {
+                    pairs.push((j, i));
+                }
+            }
+        }
+        for (a, b) in pairs {
+            if b >= cur.len() {
+                continue;
+            }
+            let mut cand = cur.clone();
+            cand.replace_range(b..b + 1, "");
+            cand.replace_range(a..a + 1, "");
+            if still_fails(&plan, &cand, width) {
+                cur = cand;
+                progress = true;
+                println!("  -> {}", cur);
+                break;
+            }
+        }
+        if !progress {
+            break;
+        }
+    }
+    println!("MINIMAL {}", cur);
 }
